@@ -3919,9 +3919,14 @@ func _select(n *node) {
 		}
 		// The comm clause is in send or recv direction.
 		switch c0 := cl.child[0]; {
-		case len(cl.child) > 1:
-			// The comm clause contains a channel operation and a clause body.
-			clause[i] = getExec(cl.child[1].start)
+		case len(cl.child) > 1 || c0.action == aAssign || c0.action == aAssignX:
+			// The comm clause contains a channel operation and a clause body,
+			// or it assigns the received value and has an empty clause body.
+			if len(cl.child) > 1 {
+				clause[i] = getExec(cl.child[1].start)
+			} else {
+				clause[i] = func(*frame) bltn { return next }
+			}
 			chans[i], assigned[i], ok[i], cases[i].Dir = clauseChanDir(c0)
 			chanValues[i] = genValue(chans[i])
 			if assigned[i] != nil {
